@@ -79,6 +79,11 @@ func (w *World) key1(v ssa.Value) string {
 		}
 		return fmt.Sprintf("conv[%s](%s)", short(x.Type().String()), w.key(x.X))
 	case *ssa.Parameter:
+		if site := w.singleSiteCI(x.Parent()); site != nil {
+			if i := paramIndex(x); i >= 0 && i < len(site.Common().Args) {
+				return w.key(site.Common().Args[i])
+			}
+		}
 		return "param:" + fname(x.Parent()) + ":" + x.Name()
 	case *ssa.FreeVar:
 		if b := w.binding(x); b != nil {
@@ -109,11 +114,15 @@ func (w *World) key1(v ssa.Value) string {
 	case *ssa.Extract:
 		return fmt.Sprintf("%s#%d", w.key(x.Tuple), x.Index)
 	case *ssa.Call:
-		if x.Block() == nil {
+		if w.isSynthetic(x) {
 			// a call expanded from a helper: identified by callee and translated arguments
 			k := "helper-call:"
-			if f, ok := x.Call.Value.(*ssa.Function); ok {
+			if x.Call.Method != nil {
+				k += "invoke " + x.Call.Method.Name() + " on " + w.key(x.Call.Value)
+			} else if f, ok := x.Call.Value.(*ssa.Function); ok {
 				k += fname(f)
+			} else if b, ok := x.Call.Value.(*ssa.Builtin); ok {
+				k += "builtin " + b.Name()
 			}
 			k += "("
 			for i, a := range x.Call.Args {
@@ -433,6 +442,13 @@ func indexIn(in ssa.Instruction) int {
 			return i
 		}
 	}
+	if theWorld != nil {
+		if v, ok := in.(ssa.Value); ok {
+			if site := theWorld.ss().synSite[v]; site != nil {
+				return indexIn(site)
+			}
+		}
+	}
 	return -1
 }
 
@@ -466,7 +482,7 @@ func (w *World) literalOf(v ssa.Value) *literal {
 		}
 	}
 	if al == nil {
-		return nil
+		return w.literalThroughHelper(v)
 	}
 	lit := &literal{alloc: al, fields: map[string]ssa.Value{}}
 	for _, r := range *al.Referrers() {
@@ -488,6 +504,55 @@ func (w *World) literalOf(v ssa.Value) *literal {
 	return lit
 }
 
+// literalThroughHelper: v is the result of a module function (a constructor helper) all of
+// whose returns yield a composite literal with the same field initialisers once translated
+// to the call site.
+func (w *World) literalThroughHelper(v ssa.Value) *literal {
+	c, idx := callOf(w.resolveLoad(v))
+	if c == nil {
+		return nil
+	}
+	h := c.Call.StaticCallee()
+	if h == nil || !w.IsMod[h] || len(h.Blocks) == 0 || c.Parent() == h {
+		return nil
+	}
+	if idx < 0 {
+		idx = 0
+	}
+	var out *literal
+	for _, ret := range returnsOf(h) {
+		if idx >= len(ret.Results) {
+			return nil
+		}
+		hl := w.literalOf(w.resolveLoad(ret.Results[idx]))
+		if hl == nil {
+			return nil
+		}
+		tl := &literal{alloc: hl.alloc, fields: map[string]ssa.Value{}}
+		for n, fv := range hl.fields {
+			if fv == nil {
+				tl.fields[n] = nil
+				continue
+			}
+			tl.fields[n] = w.translate(fv, h, c)
+		}
+		if out == nil {
+			out = tl
+			continue
+		}
+		if len(out.fields) != len(tl.fields) {
+			return nil
+		}
+		for n, fv := range out.fields {
+			o, ok := tl.fields[n]
+			if !ok || (fv == nil) != (o == nil) || (fv != nil && w.key(fv) != w.key(o)) {
+				return nil
+			}
+		}
+	}
+	return out
+}
+
 func stripIface(v ssa.Value) ssa.Value {
 	for {
 		switch x := v.(type) {
@@ -497,6 +562,12 @@ func stripIface(v ssa.Value) ssa.Value {
 			v = x.X
 		case *ssa.ChangeType:
 			v = x.X
+		case *ssa.Parameter:
+			a, ok := argOfParam(x)
+			if !ok {
+				return v
+			}
+			v = a
 		default:
 			return v
 		}
